@@ -181,14 +181,28 @@ def check_activity_guards(ctx, rule="CMP-activity"):
               + "; ".join(f"b={b} e={e} t=10: skips={got}, outside={want}" for b, e, got, want in wrong[:3]))
     # it must be guarded by `content_interval is not None`: an enclosing if, or the first operand of the same `and`
     from . import match as _m
-
-    def present(t):
-      return _m.is_none_test(t, lambda x: unparse(x) == recv) is False
+    # decided by evaluation: with the interval absent (`recv is None`), the conditions that lead into the short cut, in their
+    # evaluation order, must come out false before any component of the interval is read
+    ce_ = ConstEval(ix, symbolic_ok=False)
+    absent = {f"{recv}[0]": "__absent_b", f"{recv}[1]": "__absent_e", f"{recv} is not None": "False", f"{recv} is None": "True"}
     guarded = True
     for gg in ci_tests:
-      outer = [t for t, pol in _m.enclosing_conditions(gg, fm.node) if pol and any(present(v) for v in ([t] + (t.values if isinstance(t, ast.BoolOp) and isinstance(t.op, ast.And) else [])))]
-      conj = isinstance(gg.test, ast.BoolOp) and isinstance(gg.test.op, ast.And) and present(gg.test.values[0])
-      guarded = guarded and (bool(outer) or conj)
+      conds = [(t, pol) for t, pol in _m.enclosing_conditions(gg, fm.node)] + [(gg.test, True)]
+      reached = True
+      for (t, pol) in conds:
+        if not any(recv in unparse(x) for x in ast.walk(t) if isinstance(x, (ast.Name, ast.Attribute))):
+          continue          # a condition about something else (the loop, the cache): does not decide the guard
+        try:
+          v = bool(ce_.ev(fm.module, substitute(t, absent), fm.cls, {tparam_fm: Fraction(10)}))
+        except NotConst:
+          guarded = False       # a component of the absent interval is read
+          reached = False
+          break
+        if v != pol:
+          reached = False
+          break
+      if reached:
+        guarded = False         # the short cut is taken although there is no interval
     ctx.check(guarded, rule, f"{fm.qualname}|short cut only with a content interval",
               ctx.where(fm.module, g), "guarded by `content_interval is not None`", "the content-interval short cut is no longer guarded by `content_interval is not None`")
     n += 1
@@ -693,11 +707,77 @@ def check_compute_order(ctx, rule="TAB-compute-order"):
 H, W, FS = "H", "W", "FS"
 
 
+def _defs_of(f: FuncInfo, name: str):
+  """[(value expression or ('unpack', value, index), statement)] for the plain assignments of a local."""
+  out = []
+  for st in own_nodes(f.node):
+    if isinstance(st, ast.Assign) and len(st.targets) == 1:
+      t = st.targets[0]
+      if isinstance(t, ast.Name) and t.id == name:
+        out.append((st.value, st))
+      elif isinstance(t, ast.Tuple):
+        for i, x in enumerate(t.elts):
+          if isinstance(x, ast.Name) and x.id == name:
+            out.append((("unpack", st.value, i), st))
+    elif isinstance(st, ast.AnnAssign) and isinstance(st.target, ast.Name) and st.target.id == name and st.value is not None:
+      out.append((st.value, st))
+  return out
+
+
+def _pick(e, i, depth=0):
+  """element i of a tuple-valued expression (distributing over conditional expressions)"""
+  if isinstance(e, ast.Tuple) and i < len(e.elts):
+    return e.elts[i]
+  if isinstance(e, ast.IfExp) and depth < 4:
+    a, b = _pick(e.body, i, depth + 1), _pick(e.orelse, i, depth + 1)
+    if a is not None and b is not None:
+      return ast.copy_location(ast.IfExp(test=e.test, body=a, orelse=b), e)
+  return None
+
+
+def _field(ix, f: FuncInfo, e, attr: str, depth=0):
+  """(expression, function) of field `attr` of a record-valued expression: a constructor call with keywords (or positional
+  arguments of a NamedTuple / dataclass of the module), a helper whose single return is one, a local holding one."""
+  if depth > 5:
+    return None
+  if isinstance(e, ast.IfExp):
+    a, b = _field(ix, f, e.body, attr, depth + 1), _field(ix, f, e.orelse, attr, depth + 1)
+    if a is not None and b is not None and a[1] is b[1]:
+      return (ast.copy_location(ast.IfExp(test=e.test, body=a[0], orelse=b[0]), e), a[1])
+    return None
+  if isinstance(e, ast.Name):
+    ds = _defs_of(f, e.id)
+    if len(ds) == 1:
+      v = ds[0][0]
+      if isinstance(v, tuple):
+        v = _pick(v[1], v[2])
+      return _field(ix, f, v, attr, depth + 1) if v is not None else None
+    return None
+  if isinstance(e, ast.Attribute):
+    inner = _field(ix, f, e.value, e.attr, depth + 1)
+    return _field(ix, inner[1], inner[0], attr, depth + 1) if inner is not None else None
+  if isinstance(e, ast.Call):
+    for kw in e.keywords:
+      if kw.arg == attr:
+        return (kw.value, f)
+    r = ix.resolve(f.module, e.func, cls=f.cls, func=f)
+    if isinstance(r, ClassInfo):
+      fields = [k for k in r.field_order] or list(r.ann)
+      if attr in fields and fields.index(attr) < len(e.args):
+        return (e.args[fields.index(attr)], f)
+    if isinstance(r, FuncInfo) and r.module is f.module:
+      rets = [x for x in own_nodes(r.node) if isinstance(x, ast.Return) and x.value is not None]
+      if len(rets) == 1:
+        return _field(ix, r, rets[0].value, attr, depth + 1)
+  return None
+
+
 def axis_of(f: FuncInfo, e, depth=0):
-  """Axis of a reference-length expression: 'H', 'W', 'FS', None (absent), ('cond', test, a, b)
-  or '?' (unknown)."""
+  """Axis of a reference-length expression: 'H', 'W', 'FS', None (absent), ('cond', test, a, b),
+  '?' (resolved, but to a mixture of axes) or 'UNK' (an expression form this abstraction does not follow:
+  a field of a tuple / record, a helper's result ...)."""
   if depth > 4:
-    return "?"
+    return "UNK"
   if isinstance(e, ast.Constant) and e.value is None:
     return None
   t = unparse(e)
@@ -719,28 +799,51 @@ def axis_of(f: FuncInfo, e, depth=0):
       return W
     if e.attr in ("height",):
       return H
+    if _IX:
+      fld = _field(_IX[0], f, e.value, e.attr)
+      if fld is not None:
+        return axis_of(fld[1], fld[0], depth + 1)
+  if isinstance(e, ast.Subscript) and isinstance(e.slice, ast.Constant) and isinstance(e.slice.value, int) and isinstance(e.value, ast.Name):
+    ds = _defs_of(f, e.value.id)
+    picked = [(_pick(v, e.slice.value) if not isinstance(v, tuple) else None, st) for v, st in ds]
+    if picked and all(p_ is not None for p_, _ in picked):
+      if len(picked) == 1:
+        return axis_of(f, picked[0][0], depth + 1)
+      if len(picked) == 2:
+        pa, pb = parent(picked[0][1]), parent(picked[1][1])
+        if pa is pb and isinstance(pa, ast.If):
+          first_in_body = any(x is picked[0][1] for x in pa.body)
+          x_, y_ = (picked[0][0], picked[1][0]) if first_in_body else (picked[1][0], picked[0][0])
+          return ("cond", unparse(pa.test), axis_of(f, x_, depth + 1), axis_of(f, y_, depth + 1))
   if isinstance(e, ast.IfExp):
     return ("cond", unparse(e.test), axis_of(f, e.body, depth + 1), axis_of(f, e.orelse, depth + 1))
   if isinstance(e, ast.Name):
-    defs_ = [st for st in own_nodes(f.node) if isinstance(st, (ast.Assign, ast.AnnAssign))
-             and any(isinstance(x, ast.Name) and x.id == e.id for x in (st.targets if isinstance(st, ast.Assign) else [st.target]))]
+    ds = []
+    for v, st in _defs_of(f, e.id):
+      if isinstance(v, tuple):
+        v = _pick(v[1], v[2])
+        if v is None:
+          return "UNK"
+      ds.append((v, st))
     # `if T: v = a  else: v = b` is the statement form of `v = a if T else b`
-    if len(defs_) == 2 and all(st.value is not None for st in defs_):
-      pa, pb = parent(defs_[0]), parent(defs_[1])
+    if len(ds) == 2:
+      pa, pb = parent(ds[0][1]), parent(ds[1][1])
       if pa is pb and isinstance(pa, ast.If):
-        in_body = [any(x is st for x in pa.body) for st in defs_]
-        in_else = [any(x is st for x in pa.orelse) for st in defs_]
+        in_body = [any(x is st for x in pa.body) for _v, st in ds]
+        in_else = [any(x is st for x in pa.orelse) for _v, st in ds]
         if in_body[0] and in_else[1]:
-          return ("cond", unparse(pa.test), axis_of(f, defs_[0].value, depth + 1), axis_of(f, defs_[1].value, depth + 1))
+          return ("cond", unparse(pa.test), axis_of(f, ds[0][0], depth + 1), axis_of(f, ds[1][0], depth + 1))
         if in_body[1] and in_else[0]:
-          return ("cond", unparse(pa.test), axis_of(f, defs_[1].value, depth + 1), axis_of(f, defs_[0].value, depth + 1))
-    axes = [axis_of(f, st.value, depth + 1) for st in defs_ if st.value is not None]
+          return ("cond", unparse(pa.test), axis_of(f, ds[1][0], depth + 1), axis_of(f, ds[0][0], depth + 1))
+    axes = [axis_of(f, v, depth + 1) for v, _st in ds]
     if axes and all(a == axes[0] for a in axes):
       return axes[0]
     if len(axes) > 1 and all(a in (FS, H) for a in axes):
       return FS if FS in axes else H
+    if not axes or any(a == "UNK" or (isinstance(a, tuple) and "UNK" in str(a)) for a in axes):
+      return "UNK"
     return "?"
-  return "?"
+  return "UNK"
 
 
 DEST_AXIS = {  # keyword / field the computed length is stored into -> axis
@@ -751,8 +854,12 @@ DEST_AXIS = {  # keyword / field the computed length is stored into -> axis
 PROCESSOR_DEST = {"Disparity": W}   # tts:disparity is a horizontal offset (percentage of the root container width)
 
 
+_IX: list = []
+
+
 def check_axes(ctx, rule="AXIS"):
   ix = ctx.ix
+  _IX[:] = [ix]
   n = 0
   for name, c in sorted(processors(ix).items()):
     comp = c.methods.get("compute")
@@ -775,6 +882,9 @@ def check_axes(ctx, rule="AXIS"):
         a_pct, a_em = (FS if (isinstance(a, tuple) and leaves(a) <= {FS, H, None} and FS in leaves(a)) else a for a in (a_pct, a_em))
       key = f"{comp.qualname}|_compute_length({short(src, 40)})"
       where = ctx.where(comp.module, call)
+      if any("UNK" in str(a) for a in (a_pct, a_em, a_c, a_px)):
+        ctx.undecide(rule, f"{key}: the reference lengths `{short(pct, 25)}`, `{short(cref, 25)}`, `{short(px, 25)}` are not built in a way the axis abstraction follows")
+        continue
       # destination axis
       dest = None
       par = parent(call)
@@ -825,6 +935,40 @@ def check_axes(ctx, rule="AXIS"):
 
 
 
+def _tuple_rows_for(f: FuncInfo, node, name: str):
+  """When `name` is bound by an enclosing `for (a, b, c) in L` and L is a local built from tuple displays (list literal,
+  comprehension, append): (['a', 'b', 'c'], [row component lists])."""
+  cur = getattr(node, "_parent", None)
+  while cur is not None and cur is not f.node:
+    if isinstance(cur, ast.For) and isinstance(cur.target, ast.Tuple) and all(isinstance(e, ast.Name) for e in cur.target.elts) and name in [e.id for e in cur.target.elts] \
+        and isinstance(cur.iter, ast.Name):
+      names = [e.id for e in cur.target.elts]
+      rows = []
+      for st in own_nodes(f.node):
+        vals = []
+        if isinstance(st, ast.Assign) and len(st.targets) == 1 and unparse(st.targets[0]) == cur.iter.id:
+          v = st.value
+          if isinstance(v, (ast.List, ast.Tuple)):
+            vals = list(v.elts)
+          elif isinstance(v, ast.ListComp):
+            vals = [v.elt]
+            v.elt._comp_bound = {x.id for g in v.generators for x in ast.walk(g.target) if isinstance(x, ast.Name)}
+          elif isinstance(v, ast.IfExp):
+            for br in (v.body, v.orelse):
+              vals += list(br.elts) if isinstance(br, (ast.List, ast.Tuple)) else ([br.elt] if isinstance(br, ast.ListComp) else [None])
+          else:
+            return None
+        elif isinstance(st, ast.Call) and isinstance(st.func, ast.Attribute) and st.func.attr == "append" and unparse(st.func.value) == cur.iter.id and st.args:
+          vals = [st.args[0]]
+        for v in vals:
+          if not (isinstance(v, ast.Tuple) and len(v.elts) == len(names)):
+            return None
+          rows.append(list(v.elts))
+      return (names, rows) if rows else None
+    cur = getattr(cur, "_parent", None)
+  return None
+
+
 def check_body_frame(ctx, rule="DEP-frame"):
   """The body is timed from the document origin: whenever the element handed to a recursive
   _process_element call can be the document body (directly, or through locals that hold
@@ -863,6 +1007,22 @@ def check_body_frame(ctx, rule="DEP-frame"):
         continue
       n += 1
       ok = all(isinstance(c.args[i], ast.Constant) and c.args[i].value is None for i in (pb_i, pe_i))
+      if not ok and isinstance(ea, ast.Name):
+        # (child, parent begin, parent end) rows unpacked by the enclosing loop: decide row by row
+        rows = _tuple_rows_for(pe, c, ea.id)
+        if rows is not None:
+          names, row_list = rows
+          want = [unparse(c.args[i]) for i in (pb_i, pe_i)]
+          if all(w in names for w in want):
+            k = names.index(ea.id)
+            def _bound(r):
+              par_ = getattr(r[k], "_parent", None)
+              return getattr(par_, "_comp_bound", set()) if par_ is not None else set()
+            body_rows = [r for r in row_list if "get_body()" in unparse(r[k]) or any(isinstance(x, ast.Name) and x.id in tainted and x.id not in _bound(r) for x in ast.walk(r[k]))]
+            if not body_rows:
+              n -= 1
+              continue
+            ok = all(isinstance(r[names.index(w)], ast.Constant) and r[names.index(w)].value is None for r in body_rows for w in want)
       ctx.check(ok, rule, f"{pe.qualname}|the body is processed without a parent interval", ctx.where(pe.module, c), "parent interval (None, None)",
                 f"`{short(c.args[e_i], 30)}` can be the document body, and the call hands it the parent interval ({short(c.args[pb_i], 20)}, {short(c.args[pe_i], 20)}): "
                 "the body is resolved relative to the region's interval; region timing must gate, not shift, the body")
